@@ -107,10 +107,26 @@ def run(rep):
     from harness.props import _refsyntax
 
     _refsyntax.part(rep, PROP)
+    # the per-type decision table of the parameters cell (TypeParams.tla), this property's clauses
+    from harness.props import _typeparams
+
+    _typeparams.run(rep, PROP)
+    # the line machines of the two text containers (TextTables.tla), this property's clauses
+    from harness.props import _texttables
+
+    _texttables.run(rep, PROP)
 
 
 def replay(rep, case):
     c = case["case"]
+    if c.get("texttable"):
+        from harness.props import _texttables
+
+        return _texttables.replay(rep, PROP, c)
+    if c.get("typeparams"):
+        from harness.props import _typeparams
+
+        return _typeparams.replay(rep, PROP, c)
     if c.get("refsyntax"):
         from harness.props import _refsyntax
 
